@@ -69,5 +69,30 @@ META = {
   "note": "Trusted: dependency behaviour as read in vendored sources. Not decided: uniqueness across tokens (RNG quality).",
   "design_ref": "DESIGN.md §3 C15",
  },
+
+ "C03": {
+  "technique": "static analysis: HIR structural rules on the trust computation (default trust, scope -> origins table, superset direction), who-may-read rule for the fact store, provenance wiring, per-loop block-id agreement in authorize_inner",
+  "text": "Decides structural necessary conditions of `attenuation only restricts` for all tokens/authorizers: facts reach evaluation only through the scope-filtered iterator whose filter is trusted ⊇ origin; default and explicit scopes insert exactly what the specification names; block i's facts/rules are loaded under i; each check is evaluated, trusted and reported with one and the same block id; derived facts carry matched origins + the rule's block and are all stored. It does not decide the implication over fixpoints of arbitrary programs.",
+  "note": "Trusted: rustc HIR/typeck. Not decided: the monotonicity implication itself; non-monotone checks beyond per-block scoping.",
+  "design_ref": "DESIGN.md §3 C03",
+ },
+ "C04": {
+  "technique": "static analysis: HIR match-table rules (check-kind dispatch in the three loops, decision table expanded over {None, Some(Ok), Some(Err)} x {no failed check}), structural rules for policy order/first match, find_match / check_match_all tables, query scopes, MIR def-use rule for error propagation",
+  "text": "Decides structural necessary conditions of the decision procedure for all compositions: identical One/All/Reject dispatch in the three check loops with errors propagated, the final decision table equals the specified mapping and always reports failed checks, policies are tried in order and the first match stops, `check if` is exists and `check all` is exists-and-forall, queries use the documented scopes, plus the trust/visibility/loading rules shared with C03. It does not decide equality with the specification on all programs.",
+  "note": "Trusted: rustc HIR/typeck. Not decided: full semantic equivalence (needs an executable reference semantics).",
+  "design_ref": "DESIGN.md §3 C04",
+ },
+ "C16": {
+  "technique": "static analysis: HIR match-table expansion of the feature detectors over every enum variant compared with a version oracle; structural rule on visited positions (helper-aware); must-pass (dominance) rules for the load gates; structural rules for flags -> version and for signature-version selection",
+  "text": "Decides structural necessary conditions of C16 for all block contents: every variant of Term/Op/Unary/Binary/CheckKind is classified by the detector exactly as the specification's feature table (unclassified or misclassified variants are violations), every position that can hold a feature is scanned, flags map to versions 3/4/6, check_compatibility refuses each feature under every lower declared version, both loaders return Ok only after range test and compatibility check, third-party blocks are >= 3.2, and the chained signature scheme is chosen when needed and monotone.",
+  "note": "Trusted: oracle/feature_versions.json (from the specification), rustc resolution.",
+  "design_ref": "DESIGN.md §3 C16",
+ },
+ "C17": {
+  "technique": "static analysis: panic-source reachability with zones length-guard discharge for fixed-size conversions; HIR rule over every algorithm-dispatch arm (callee module, prefix strings, constructors); structural rules for unknown-algorithm rejection and PEM/DER auto-detection",
+  "text": "Decides structural necessary conditions of C17 for all encodings: no reachable panic in any decode path (GenericArray conversions only behind an exact-length guard, ed25519 through checked try_into), every arm dispatching on an algorithm/key enum stays on its own algorithm (callees, prefix strings, constructors) across printers, parsers and the Datalog grammar, from_proto refuses unknown algorithm numbers on the raw value, auto-detection tries every algorithm. It does not decide round-trip equality or cryptographic binding.",
+  "note": "Trusted: dependency crates; panic catalogue. Not decided: value round trips.",
+  "design_ref": "DESIGN.md §3 C17",
+ },
 }
 NOT_APPLICABLE = {}
